@@ -31,6 +31,8 @@ def _dump(payload, sub):
     links = [T.rows_of(t) for t in payload['tables']]
     opts = dict(payload.get('opts') or {})
     links.append(dump_to_path('out', **opts))
+    # (threads the dumper might start by itself run under the seeded scheduler - ambient seam, installed by ctx.subrun -
+    # and are interleaved, and killed, between file ops)
     Flow(*links).process()
     return {'seam_ops': sub.seam.n, 'ops': [list(o) for o in sub.seam.ops]}
 
